@@ -332,7 +332,15 @@ pub fn via_ctor(e: &Expr) -> Expr {
         Expr::Reference(n) => Expr::reff(n),
         Expr::Symbol(n) => Expr::symbol(n),
         Expr::Function(f, a) => Expr::func(f.clone(), c(a)),
-        Expr::Index(b, i) => Expr::index(c(b), i.clone()),
+        // through the public conversions into `Index` (a &str / String is a field name whatever it looks like, a usize a position)
+        Expr::Index(b, Index::Map(k)) => {
+            if k.len() % 2 == 0 {
+                Expr::index(c(b), Index::from(k.as_str()))
+            } else {
+                Expr::index(c(b), Index::from(k.clone()))
+            }
+        }
+        Expr::Index(b, Index::Vec(n)) => Expr::index(c(b), Index::from(*n)),
         Expr::If(x, t, f) => Expr::iif(c(x), c(t), c(f)),
         Expr::Map(m) => Expr::Map(m.iter().map(|(k, x)| (k.clone(), c(x))).collect()),
         Expr::Vec(v) => Expr::Vec(v.iter().map(c).collect()),
